@@ -15,7 +15,8 @@ LEVEL_TEXT = ("Kernel-checked theorems over the integer-only temporal model (Pro
               "microseconds (`time_rt`), dates and datetimes round-trip for every value (`date_rt`, `datetime_unmarshal`; the calendar law CalLaw — "
               "ordinal <-> y-m-d bijection — is PROVED, `calLaw`, and also compared with datetime.date over all 3 652 059 ordinals in the "
               "thorough tier); the four temporal leaves satisfy the leaf laws of C01/C13 (`leaf_roundtrip`, `leaf_passthrough`), so "
-              "`roundtrip_temporal` / `passthrough_temporal` instantiate the C01 / C13 theorems on the scalar set S1 with temporals; int text round trip from core's "
+              "`roundtrip_temporal` / `passthrough_temporal` instantiate the C01 / C13 theorems on the scalar set S1 with temporals (enum classes: the "
+              "decidable `enumWF` for the round trip, no condition for pass-through); int text round trip from core's "
               "Nat.toDigits lemmas. Decimal / Fraction / UUID / path / float printers and parsers are CPython's (named hypotheses; "
               "Python's own printer is the oracle there). Tied to /repo by the per-run correspondence on boundary-biased scalars in "
               "all text carriers; the property (text -> value, numbers -> temporals as UTC epoch seconds, temporals -> numbers / "
